@@ -1,9 +1,112 @@
 package main
 
 import (
-	_ "golang.org/x/tools/go/packages"
-	_ "golang.org/x/tools/go/ssa"
-	_ "golang.org/x/tools/go/ssa/ssautil"
+	"flag"
+	"fmt"
+	"os"
+	"sort"
+	"strings"
+	"time"
+
+	"govc/vc"
 )
 
-func main() {}
+func main() {
+	if len(os.Args) < 2 {
+		fmt.Fprintln(os.Stderr, "usage: govc <func|check|replay> ...")
+		os.Exit(2)
+	}
+	switch os.Args[1] {
+	case "func":
+		cmdFunc(os.Args[2:])
+	case "check":
+		os.Exit(vc.CmdCheck(os.Args[2:]))
+	case "replay":
+		os.Exit(vc.CmdReplay(os.Args[2:]))
+	default:
+		fmt.Fprintln(os.Stderr, "unknown command", os.Args[1])
+		os.Exit(2)
+	}
+}
+
+// cmdFunc: developer entry point — verify the named functions and print every obligation.
+func cmdFunc(args []string) {
+	fs := flag.NewFlagSet("func", flag.ExitOnError)
+	repo := fs.String("repo", "/repo", "repository")
+	pkgs := fs.String("pkgs", "./...", "package patterns (comma separated)")
+	timeout := fs.Duration("timeout", 10*time.Second, "solver timeout")
+	keep := fs.Bool("v", false, "verbose")
+	ext := fs.String("ext", "/verif/specs/ext", "external specs dir")
+	work := fs.String("work", "/verif/work/dev", "work dir")
+	fs.Parse(args)
+	t0 := time.Now()
+	en, err := vc.Load(*repo, strings.Split(*pkgs, ","), "verif")
+	if err != nil {
+		fmt.Fprintln(os.Stderr, "load:", err)
+		os.Exit(2)
+	}
+	if err := en.CS.LoadRepoContracts(en.RepoPkgDirs()); err != nil {
+		fmt.Fprintln(os.Stderr, "contracts:", err)
+		os.Exit(2)
+	}
+	if err := en.CS.LoadExtDir(*ext); err != nil {
+		fmt.Fprintln(os.Stderr, "ext specs:", err)
+		os.Exit(2)
+	}
+	fmt.Printf("loaded in %.1fs, %d contracts\n", time.Since(t0).Seconds(), len(en.CS.Funcs))
+	var keys []string
+	for k, fc := range en.CS.Funcs {
+		if fc.Trusted || fc.External {
+			continue
+		}
+		if len(fs.Args()) == 0 {
+			keys = append(keys, k)
+			continue
+		}
+		for _, a := range fs.Args() {
+			if strings.HasSuffix(k, a) || strings.Contains(k, a) {
+				keys = append(keys, k)
+				break
+			}
+		}
+	}
+	sort.Strings(keys)
+	cfg := vc.SolverCfg{Timeout: *timeout, WorkDir: *work, Parallel: 16, Solvers: []string{"z3new", "z3", "cvc5"}}
+	bad := 0
+	for _, k := range keys {
+		fc := en.CS.Funcs[k]
+		t1 := time.Now()
+		res := en.VerifyFunc(fc)
+		gen := time.Since(t1).Seconds()
+		if res.Err != "" {
+			fmt.Printf("== %s: ERROR %s\n", k, res.Err)
+			bad++
+			continue
+		}
+		t2 := time.Now()
+		vc.Discharge(res.Obls, cfg)
+		nd := 0
+		for _, o := range res.Obls {
+			if o.Status == "discharged" {
+				nd++
+			}
+		}
+		fmt.Printf("== %s: %d/%d discharged (gen %.2fs, solve %.2fs)\n", k, nd, len(res.Obls), gen, time.Since(t2).Seconds())
+		for _, o := range res.Obls {
+			if o.Status != "discharged" || *keep {
+				fmt.Printf("   %-10s %-8s %6.2fs %s  [%s] %s\n", o.Status, o.Solver, o.Seconds, o.Name, o.Pos, o.Output)
+				if o.Status != "discharged" {
+					bad++
+				}
+			}
+		}
+		if *keep {
+			for _, n := range res.Notes {
+				fmt.Println("   note:", n)
+			}
+		}
+	}
+	if bad > 0 {
+		os.Exit(1)
+	}
+}
